@@ -22,6 +22,8 @@ fn addr(label: &str) -> SocketAddrV4 {
         "ones" => SocketAddrV4::new(Ipv4Addr::new(255, 255, 255, 255), 6881),
         "sub" => SocketAddrV4::new(Ipv4Addr::new(10, 90, 0, 0), 6881),
         "zero" => SocketAddrV4::new(Ipv4Addr::new(0, 0, 0, 0), 6881),
+        // the peer's ip with port 0: the socket drops such datagrams unread
+        "port0" => SocketAddrV4::new(Ipv4Addr::new(10, 90, 0, 1), 0),
         _ => SocketAddrV4::new(Ipv4Addr::new(10, 66, 6, 6), 6881),
     }
 }
@@ -47,20 +49,30 @@ impl Run {
         self.sent.push((tid, to.to_string()));
         self.lines += 1;
     }
-    /// tid < 0: a receive that times out
     fn recv(&mut self, tid: i64, from: &str, error: bool, out: &mut Out) {
+        self.recv_kind(tid, from, if tid < 0 { "none" } else if error { "err" } else { "resp" }, out)
+    }
+    /// kind: none (the read times out), resp, err, req (a REQUEST carrying that transaction id), junk (bytes that are no message)
+    fn recv_kind(&mut self, tid: i64, from: &str, kind: &str, out: &mut Out) {
         let (before, _, _, timeout) = self.snap();
-        let input = if tid < 0 {
-            None
-        } else {
-            let t = (tid as u32).to_be_bytes();
-            let b = if error { krpc::error(&t, 203, "x") } else { krpc::response(&t, &[7u8; 20], crate::bencode::B::dict(), None) };
-            Some((b.encode(), addr(from)))
+        let t = (tid.max(0) as u32).to_be_bytes();
+        let input = match kind {
+            "none" => None,
+            "err" => Some((krpc::error(&t, 203, "x").encode(), addr(from))),
+            "req" => Some((krpc::ping(tid.max(0) as u32, &[9u8; 20], false).encode(), addr(from))),
+            "junk" => {
+                // a response cut short: the transaction id is there, the message is not
+                let mut b = krpc::response(&t, &[7u8; 20], crate::bencode::B::dict(), None).encode();
+                b.truncate(b.len() - 3);
+                Some((b, addr(from)))
+            }
+            _ => Some((krpc::response(&t, &[7u8; 20], crate::bencode::B::dict(), None).encode(), addr(from))),
         };
         let handed = self.sock.recv(input).is_some();
         let (present, cap, next, _) = self.snap();
-        let first = tid >= 0 && self.replied.insert((tid as u32, from.to_string()));
-        out.line(&json!({"e":"op","op":"recv","tid":tid,"from":from,"kind": if tid < 0 { "none" } else if error { "err" } else { "resp" },
+        let answers = kind == "resp" || kind == "err";
+        let first = answers && self.replied.insert((tid as u32, from.to_string()));
+        out.line(&json!({"e":"op","op":"recv","tid":tid,"from":from,"kind":kind,
             "timeout_ms":timeout.0,"timeout_hi_ms":timeout.1,"handed":handed,"present_before":before,"present":present,"cap":cap,"next_tid":next,"first_reply":first}));
         self.lines += 1;
     }
@@ -123,6 +135,16 @@ fn random(b: u64, rng: &mut Rng, len: usize, out: &mut Out) -> u64 {
                     0 => r.recv(t as i64, *rng.pick(&["evil", "a_port", "b_port", "super", "super2", "ones", "sub", "zero"]), rng.chance(1, 4), out),
                     1 => r.recv(t as i64, if to == "a" { "b" } else { "a" }, false, out),
                     _ => r.recv(t as i64 + 1 + rng.below(3) as i64, &to, false, out),
+                }
+            }
+            70..=73 if !r.sent.is_empty() => {
+                // not a reply at all: a request that happens to carry the id, a truncated message, a datagram from port 0
+                let (t, to) = r.sent[r.sent.len() - 1 - rng.below(r.sent.len().min(4) as u64) as usize].clone();
+                match rng.below(4) {
+                    0 => r.recv_kind(t as i64, &to, "req", out),
+                    1 => r.recv_kind(t as i64, "evil", "req", out),
+                    2 => r.recv_kind(t as i64, &to, "junk", out),
+                    _ => r.recv_kind(t as i64, "port0", "resp", out),
                 }
             }
             70..=79 => r.recv(-1, "a", false, out),
